@@ -52,6 +52,9 @@ type Scenario struct {
 	// events can arrive between host selection and the first byte of the request (0 = no such filter)
 	FilterDelayUs int `json:"filter_delay_us,omitempty"`
 	RstLateUs     int `json:"rst_late_us,omitempty"` // hosts of kind rst-late: accept, reset this long after accepting
+	// Term (part terminate): a stream filter keeps its handler and ends the request from outside through
+	// StreamReceiverFilterHandler.TerminateStream at a generated moment
+	Term *TermPlan `json:"term,omitempty"`
 }
 
 func (s *Scenario) canonical() []byte {
